@@ -11,6 +11,16 @@
    always the values held before the call.  wa / wb: the operand has a huge stride (sparse arena: only the pages holding
    designated cells are accessible); its stride, element positions and extent are then logged as 64-bit limb words
    (saw apw anw ...) because TLC integers are 32 bit, and checked with the limb form of Addr for a strided operand.
+   CALL HISTORIES.  hn > 1: the event is call number hs (0-based) of a history of hn calls of the same overload made one after
+   the other in one process and thread on the SAME objects: the arenas of a, b and of the result, the offset arrays, the
+   precomputed sums and the register context keep their addresses, and between two calls their contents are overwritten in
+   place (hk, informative, names how: coordinates permuted, basis elements, a value with the same xor / sum of coordinates,
+   one coordinate changed, the other representation of the same value, offset arrays permuted, ...).  A call of a history is
+   an ORDINARY event: a, b, x are the operands as they are at THAT call, and it is judged by OkCall exactly like a single
+   call.  This specification has no variable besides the position l in the trace and Ok(e) reads nothing but e, so the
+   verdict on a call cannot depend on any earlier call -- state kept by the library between calls must never matter.
+   sh = TRUE: operands a and b were the same array (same pointer): both extents logged are SharedExtent and cells
+   designated by both operands hold one value (SharedAgree).
    Accepted iff the driver addressed the operands as the table row says, every result element is congruent (mod p,
    coefficient-wise) to the scalar extension operation on the k-th operands, the changed positions are exactly the write
    footprint of the row, and same / inw / slack hold.  A "crash" event (guard-page fault, abort) is never accepted. *)
@@ -21,10 +31,10 @@ INSTANCE Layout16 WITH FA <- FAdd, FS <- FSub, FM <- FMul, FZero <- Zero8
 Eq3(u, v) == EqModP(u[1], v[1]) /\ EqModP(u[2], v[2]) /\ EqModP(u[3], v[3])
 SeqSet(s) == {s[i] : i \in DOMAIN s}
 (* the driver addressed element k of operand d where the row says *)
-AddrOk(d, n, ps, ext, s, idx) ==
-  IF InMem(d) THEN /\ Len(ps) = n /\ \A k \in 0..(n - 1) : ps[k + 1] = Addr(d, k, 0, s, idx)
-                   /\ ext = Extent(d, n, s, idx)
-  ELSE Len(ps) = 0 /\ ext = 0
+PosOk(d, n, ps, s, idx) ==
+  IF InMem(d) THEN Len(ps) = n /\ \A k \in 0..(n - 1) : ps[k + 1] = Addr(d, k, 0, s, idx)
+  ELSE Len(ps) = 0
+AddrOk(d, n, ps, ext, s, idx) == PosOk(d, n, ps, s, idx) /\ ext = Extent(d, n, s, idx)
 ArgsOkN(d, n, s, idx) == /\ Len(idx) = (IF d.kind = "index" THEN n ELSE 0) /\ (d.kind # "stride" => s = 0)
                          /\ \A i \in DOMAIN idx : idx[i] >= 0
 (* Addr(d, k, 0, s, idx) = k * s and Extent = (n - 1) * s + Width(d) for a strided operand, over 8 byte limbs *)
@@ -46,17 +56,27 @@ ValsOk(d, n, vs) == /\ Len(vs) = n
 AuxOk(r, n, e) == IF r.aux = "none" THEN Len(e.x) = 0
                   ELSE /\ Len(e.x) = n /\ \A k \in 1..n : Len(e.x[k]) = 3 /\ IsWordSeq(e.x[k]) /\ Eq3(e.x[k], Sums(e.b[k]))
                        /\ (r.aux = "const" => \A k \in 1..n : e.x[k] = e.x[1])
+(* a and b are one array: each addressed as its row says inside one arena that ends at the larger footprint *)
+SharedOk(r, n, e) ==
+  /\ Shareable(r.a, r.b) /\ ~e.wa /\ ~e.wb /\ e.al = "none"
+  /\ ArgsOkN(r.a, n, e.sa, e.ia) /\ PosOk(r.a, n, e.ap, e.sa, e.ia)
+  /\ ArgsOkN(r.b, n, e.sb, e.ib) /\ PosOk(r.b, n, e.bp, e.sb, e.ib)
+  /\ e.an = SharedExtent(r.a, r.b, n, e.sa, e.ia, e.sb, e.ib) /\ e.bn = e.an
+HistOk(e) == e.hn >= 1 /\ e.hs >= 0 /\ e.hs < e.hn
 OkCall(e) ==
   LET r == Table16[e.id]  n == r.lanes
       WF == Footprint(r.c, n, e.sc, e.ic)
-  IN /\ OpAddrOk(r.a, n, e.wa, e.ap, e.an, e.sa, e.ia, e.apw, e.anw, e.saw)
-     /\ OpAddrOk(r.b, n, e.wb, e.bp, e.bn, e.sb, e.ib, e.bpw, e.bnw, e.sbw)
+  IN /\ HistOk(e)
+     /\ IF e.sh THEN SharedOk(r, n, e)
+        ELSE /\ OpAddrOk(r.a, n, e.wa, e.ap, e.an, e.sa, e.ia, e.apw, e.anw, e.saw)
+             /\ OpAddrOk(r.b, n, e.wb, e.bp, e.bn, e.sb, e.ib, e.bpw, e.bnw, e.sbw)
      /\ ArgsOkN(r.c, n, e.sc, e.ic) /\ AddrOk(r.c, n, e.cp, e.cn, e.sc, e.ic)
      \* alias mode: allowed by the row, and the aliased operand is addressed exactly like the result
      /\ e.al \in AliasModes(r)
      /\ (e.al = "a" => ~e.wa /\ (InMem(r.c) => SameCells(r.c, r.a, n, e.sc, e.ic, e.sa, e.ia)))
      /\ (e.al = "b" => ~e.wb /\ (InMem(r.c) => SameCells(r.c, r.b, n, e.sc, e.ic, e.sb, e.ib)))
      /\ ValsOk(r.a, n, e.a) /\ ValsOk(r.b, n, e.b) /\ AuxOk(r, n, e)
+     /\ (e.sh => SharedAgree(r.a, r.b, n, e.sa, e.ia, e.sb, e.ib, e.a, e.b))
      /\ (InMem(r.c) => Disjoint(r.c, n, e.sc, e.ic))                 \* the harness asked for a well-defined result
      /\ Len(e.r) = n
      /\ \A k \in 1..n : Len(e.r[k]) = 3 /\ IsWordSeq(e.r[k]) /\ Eq3(e.r[k], Expected(r.op, r.a, r.b, e.a[k], e.b[k]))
